@@ -32,6 +32,10 @@ STM = [
     "len = 5", "print(len([1]))", "print(sorted(d.items()))", "print(type(x).__name__)", "u = str(x) + 'q'",
     "v = x // 2 + x % 2 + x ** 2", "print('x\\ry')", "name = input('who? ')\nprint('[' + name + ']')",
     "print('  pad  ')", "import sys\nsys.stdout.write('w')",
+    "def cd(k):\n    if k == 0:\n        return 1 / 0\n    return cd(k - 1)\ncd(12)",
+    "def area(wd: int, ht: itn) -> int:\n    return wd * ht",
+    "def ann(a: int, b: str = 's') -> float:\n    return 1.0\nprint(ann.__annotations__)",
+    "count: int = 3\nprint(__annotations__)",
 ]
 QUEUES = [[], ['3'], ['3', 'x'], ['3 ', ' x\t']]
 
